@@ -177,6 +177,17 @@ def ari(ref, est):
 # --------------------------------------------------------------------------
 # information-theoretic scores
 # --------------------------------------------------------------------------
+def ami_is_undefined(ref, est):
+    """True when AMI is an exact 0/0: at least two frames and every frame is
+    its own cluster in both labellings.  (E[MI] <= MI-of-any-table <=
+    min(H_ref, H_est), so max(H) - E[MI] vanishes only when every table with
+    these marginals is a bijection of clusters, i.e. all clusters are single
+    frames; the one-cluster case is the documented special case 1.0.)"""
+    ref, est = _check(ref, est)
+    n = len(ref)
+    return n >= 2 and len(set(ref)) == n and len(set(est)) == n
+
+
 def mutual_information(ref, est):
     """((MI, AMI, NMI), inf), natural logarithms.
     MI  = I(ref; est)
